@@ -305,8 +305,8 @@ class Mirror:
 # generator
 # ---------------------------------------------------------------------------
 class Gen:
-    def __init__(self, rng, dirty, max_ops):
-        self.rng, self.dirty, self.max_ops = rng, dirty, max_ops
+    def __init__(self, rng, dirty, max_ops, failwalk=False):
+        self.rng, self.dirty, self.max_ops, self.failwalk = rng, dirty, max_ops, failwalk
         pri = []
         for p in range(NPRIORS):
             lo = rng.choice([0, 0, 0, 1, 2])
@@ -458,7 +458,7 @@ class Gen:
             if len(m.objs) < 40:
                 self.new_object(r.randint(0, 1))
             return None
-        if self.dirty:
+        if self.failwalk:
             return ["failwalk", r.choice(pms)]
         return None
 
@@ -556,10 +556,11 @@ def gen_cases(ctx):
                 c = json.load(open(os.path.join(cdir, f)))
                 cases.append(dict(c.get("case", c), origin="corpus"))
     for i in range(n):
-        dirty = ctx.rng.random() < 0.4
-        g = Gen(ctx.rng, dirty, ctx.rng.choice([12, 20, 30, 40]))
+        x = ctx.rng.random()
+        mode = "clean" if x < 0.6 else "stale" if x < 0.85 else "poison"
+        g = Gen(ctx.rng, mode != "clean", ctx.rng.choice([12, 20, 30, 40]), failwalk=(mode == "poison"))
         c = g.build()
-        c["origin"] = "dirty" if dirty else "clean"
+        c["origin"] = mode
         cases.append(c)
     return cases
 
@@ -855,6 +856,20 @@ def run(ctx):
                                    "frozen": results[i]["frozen"]},
                         broken={"kind": "correspondence", "name": "C13.check_case"},
                         found_input=oracle(cases[i], results[i]) is not None)
+        # hypothesis of C13_coherent_partial, decided inside Coq (guardedb, sound by C13_guard_checkable) on every
+        # history without a finding label; on those the model must also answer every query like the fresh composition
+        if os.path.exists(os.path.join(common.COQ, "C13", "Proofs3.vo")):
+            free = [j for j, i in enumerate(coq_idx) if not case_labels(cases[i])]
+            badg, log = ctx.eval_cases(HEADER + "\nFrom PAFC13 Require Import Proofs3.", "case", "check_guard",
+                                       [coq_cases[j] for j in free], tag="guard", shard=40 if ctx.tier == "quick" else 120)
+            ctx.notes["histories_satisfying_theorem_guard"] = len(free) - len(badg or [])
+            ctx.notes["histories_with_finding_labels"] = len(coq_idx) - len(free)
+            for b in (badg or [])[:3]:
+                i = coq_idx[free[b]]
+                ctx.failure("correspondence", "a history without finding labels does not satisfy the guard of C13_coherent_partial "
+                            "(or the model's answers differ from the fresh composition)",
+                            {"classes": cases[i]["classes"], "priors": cases[i]["priors"], "ops": cases[i]["ops"]},
+                            broken={"kind": "correspondence", "name": "C13.check_guard"}, found_input=False)
     else:
         ctx.obligation("correspondence:cases", "correspondence", False, "Model.vo not built")
 
